@@ -160,8 +160,8 @@ T["C11"] = ("Lean theorems: under the property's side condition (no --path insid
   "permutation; 5 recorded findings; trusted: Lean kernel, ImagePaths/LegacyStrip models tied by correspondence, proto.CloneOf is a deep copy")
 
 T["C19"] = ("Lean theorems for all BUF_TOKEN strings and all netrc machine lists: a token reaches a host only if exactly that token@host entry (or the host-less token, or the netrc machine/default entry) was configured; malformed "
-  "strings are rejected as a whole; first source wins; whole chain from bufcli config to the interceptor. Exhaustive small-alphabet + random correspondence with the real providers, interceptor and loopback HTTP servers on every run",
-  "Trusted: Lean kernel; hand-written model of bufconnect/netrc/connectclient tied by correspondence; go-netrc's lexer, net/http and connect-go not modelled; 1 recorded finding (netrc VALUE spelled `default`)")
+  "strings are rejected as a whole; first source wins; whole chain from bufcli config to the interceptor; redirect chains: no hop carries a token unless it goes to the original host (hopHeaders: net/http's copy rule + bufcli.checkRedirect). Exhaustive small-alphabet + random correspondence with the real providers, interceptor, loopback HTTP servers and a fake redirecting network on every run",
+  "Trusted: Lean kernel; hand-written model of bufconnect/netrc/connectclient tied by correspondence; go-netrc's lexer and connect-go not modelled, of net/http only the redirect header rule (compared per hop); 1 recorded finding (netrc VALUE spelled `default`)")
 
 
 def main():
